@@ -21,6 +21,8 @@ def plan(tier, seed):
                 vacuity=1, mutants=[])
     famR = dict(name='recook_follows_document_kind', module=H, fn='recook', jobs=[{}], timeout=300, vacuity=1,
                 mutants=[{'name': 'booleans_stick', 'cfg': {}}])
+    famO = dict(name='encoding_option_is_not_the_source_encoding', module=H, fn='option_encoding', jobs=[{}], timeout=300,
+                vacuity=1, mutants=[])
     return dict(
         level='model_checking',
         functions=['chameleon.zpt.template:PageTemplate.parse', 'chameleon.template:BaseTemplate.write', 'chameleon.utils:read_bytes', 'chameleon.utils:read_xml_encoding', 'chameleon.utils:detect_encoding',
@@ -37,7 +39,7 @@ def plan(tier, seed):
                 '(trusted: stdlib), whole-template bytes-vs-str rendering (compile() boundary).'),
         assumptions=['stdlib codecs are trusted; documents are assembled from grammar choices so that the expected decision '
                      'is known by construction'],
-        families=[famD, famT, famO, famM, famR],
+        families=[famD, famT, famO, famM, famR, famO],
         extra=z_queries,
     )
 
